@@ -242,7 +242,9 @@ class Store:
         src = self.selected_mbox(s)
         if move and s.readonly:
             raise Refused(("NO",), "read-only")
-        tgt = self.resolve(s, elems, uid, sync_first=True)
+        # the numbers of a non-UID COPY / MOVE mean what they mean in the view the session has been told about, exactly as for
+        # FETCH / STORE / SEARCH (an EXPUNGE response may be *sent* during COPY, but the numbers were chosen before it)
+        tgt = self.resolve(s, elems, uid, sync_first=False)
         d = self.mb(dst)
         if d is None or d.noselect:
             raise Refused(("NO",), "TRYCREATE")
